@@ -301,6 +301,8 @@ Definition dstep (st : dstate) (t : token) : option dstate :=
                 (* Tuple / FrozenSet / RemoteCopy .start: setObject(count, self.deferred) *)
                 d_pend := if defers k then cnt :: d_pend st else d_pend st; d_cbs := d_cbs st; d_unref := d_unref st |}
       end
+    | TPing _ | TPong _ => if keepalive_tokens_ignored then Some st else None     (* keepalive tokens are dealt with in Banana.handleData (`continue`) before handleOpen sees
+                                          anything: legal between OPEN and its index tokens too *)
     | _ => None
     end
   | None =>
@@ -339,7 +341,7 @@ Definition dstep (st : dstate) (t : token) : option dstate :=
         else None
       | [] => None
       end
-    | TPing _ | TPong _ => Some st
+    | TPing _ | TPong _ => if keepalive_tokens_ignored then Some st else None
     | TVocab _ | TAbort _ | TError _ => None
     end
   end.
